@@ -250,6 +250,23 @@ class Universe:
             paste = ch.mktype(type_id=int(_T.nanite_repair_paste), category_id=TypeCategoryId.charge,
                               attrs={a: rnd.choice(self.vals) for a in rnd.sample(self.plain, 2)})
             self.types['charge'] += [paste.id] * 3
+            # autocharges: a turret-like effect whose carrier names its ammunition in an attribute; the autocharge is
+            # an item of its own whose effects follow the carrier's state
+            ta = ch.mkeffect(effect_id=int(EffectId.target_attack), category_id=EffectCategoryId.active)
+            autos = []
+            for _ in range(2):
+                aeffs = rnd.sample(self.effects, rnd.randint(1, 3))
+                act = [e for e in aeffs if e.category_id in (EffectCategoryId.active, EffectCategoryId.online)]
+                at = ch.mktype(category_id=TypeCategoryId.charge, group_id=rnd.choice(self.groups),
+                               attrs={a: rnd.choice(self.vals) for a in rnd.sample(self.plain, 3)}, effects=aeffs,
+                               default_effect=rnd.choice(act) if act else None)
+                autos.append(at.id)
+            for k in range(2):
+                t = ch.mktype(type_id=9111 + k, group_id=rnd.choice(self.groups), category_id=TypeCategoryId.module,
+                              attrs=dict([(a, rnd.choice(self.vals)) for a in rnd.sample(self.plain, 2)] +
+                                         [(int(AttrId.ammo_loaded), autos[k])]),
+                              effects=[ta, self.online] + rnd.sample(self.effects, rnd.randint(0, 2)), default_effect=ta)
+                self.types.setdefault('mh', []).extend([t.id] * 2)
             for tid0 in self.types['ship']:
                 t0 = ch.types[tid0]
                 t0.attrs.setdefault(int(AttrId.mass), rnd.choice([1000, 2000, 0]))
@@ -566,6 +583,8 @@ class World:
             raw = sorted(it._running_effect_ids)
             if raw != run[it._vid]:
                 run[it._vid] = ('inconsistent', raw, run[it._vid])
+            for eid, ac in it.autocharges.items():
+                run[(it._vid, 'autocharge', int(eid))] = (ac._type_id, sorted(int(e) for e in ac._running_effect_ids))
             for a in ids:
                 try:
                     vals[(it._vid, a)] = it.attrs[a]
